@@ -1,8 +1,274 @@
 /-
   C12 — property theorems (only `theorem C12_*` statements and non-vacuity examples live here;
-  helper lemmas go to CedarGoProofs/Lemmas/).
+  helper lemmas go to CedarGoProofs/Lemmas/C12*.lean).
+
+  All statements are about the executable model `CedarGo/Model/Scalars.lean`, a transcription of
+  types/decimal.go, duration.go, datetime.go, long.go and of the parts of strconv / fmt / time they call
+  (own digit functions `natDigits`/`digitsVal`, own civil calendar `daysFromCivil`/`civilFromDays`).
+  The transcription is tied to the Go code by the correspondence ops parse-* / print-* / new-decimal / civil / days.
+  The model mirrors the Go code's defects; where the fixed property text fails there is a `_counterexample`.
 -/
-import CedarGo.Model.Fold
+import CedarGoProofs.Lemmas.C12Digits
+import CedarGoProofs.Lemmas.C12Decimal
+import CedarGoProofs.Lemmas.C12DecimalIff
+import CedarGoProofs.Lemmas.C12NewDecimal
+import CedarGoProofs.Lemmas.C12Duration
+import CedarGoProofs.Lemmas.C12Civil
+import CedarGoProofs.Lemmas.C12Datetime
+import CedarGoProofs.Lemmas.C12IP
 namespace CedarGo
+open Scalars
+
+/-! ## digit strings -/
+
+/-- `ofDigits (digits n) = n` for the model's own digit functions. -/
+theorem C12_digits_value (n : Nat) : digitsVal (natDigits n) = n := digitsVal_natDigits n
+
+/-- the digit string of a number is non-empty and consists of decimal digits only -/
+theorem C12_digits_all_digits (n : Nat) : allDigits (natDigits n) = true := allDigits_natDigits n
+
+/-- no leading zero except for `0` itself -/
+theorem C12_digits_no_leading_zero (n : Nat) :
+    ∃ c rest, natDigits n = c :: rest ∧ isDig c = true ∧ (c = '0' → n = 0) := natDigits_head n
+
+/-- zero-padded fixed-width fields (`%04d`, `%02d`, `%03d`, `%09d`): exact width, digits only, exact value -/
+theorem C12_padded_field (k n : Nat) (hk : 0 < k) (h : n < 10 ^ k) :
+    (padL k n).length = k ∧ (padL k n).all isDig = true ∧ digitsVal (padL k n) = n := padL_spec k n hk h
+
+example : natDigits 9223372036854775807 = "9223372036854775807".toList := by rfl
+example : padL 9 2024 = "000002024".toList := by rfl
+
+/-! ## long -/
+
+/-- every `int64` prints (`fmt.Sprint`) to a string that `strconv.ParseInt` reads back -/
+theorem C12_long_roundtrip (n : Int) (h : InI64 n) : parseLong (printLong n) = some n := by
+  simp only [parseLong, printLong, String.toList_ofList]
+  exact parseInt64_printLongL n h
+
+example : InI64 minI64 ∧ parseLong (printLong minI64) = some minI64 := ⟨by decide, by rfl⟩
+
+/-! ## decimal -/
+
+/-- every decimal value (all 2^64 raw ten-thousandths, every fractional digit count) prints to a
+    string that parses back to the same value -/
+theorem C12_decimal_roundtrip (d : Int) (h : InI64 d) : parseDecimal (printDecimal d) = .ok d := by
+  simp only [parseDecimal, printDecimal, String.toList_ofList]
+  exact parseDecimalL_printDecimalL d h
+
+example : InI64 (-5000) ∧ printDecimal (-5000) = "-0.5" ∧ printDecimal minI64 = "-922337203685477.5808" :=
+  ⟨by decide, by rfl, by rfl⟩
+
+/-- `newDecimal` (the bounds test every decimal constructor ends in) is exact: on arguments of matching
+    sign with `|tt| < 10^4` it returns `intPart·10^4 + tt` iff that fits in `int64`, and an error otherwise -/
+theorem C12_newDecimal_bounds_exact (i tt : Int) (ht : -9999 ≤ tt ∧ tt ≤ 9999)
+    (hs : (0 ≤ i ∧ 0 ≤ tt) ∨ (i ≤ 0 ∧ tt ≤ 0)) :
+    newDecimal i tt = if InI64 (i * 10000 + tt) then .ok (i * 10000 + tt) else .error .extDecimal :=
+  newDecimal_exact i tt ht hs
+
+example : newDecimal 922337203685477 5807 = .ok maxI64 ∧ newDecimal 922337203685477 5808 = .error .extDecimal :=
+  ⟨by rfl, by rfl⟩
+
+/-- canonical literals parse exactly: for digit strings `I`, `F` with `|F| ≤ 4`, `ParseDecimal("-"? I "." F)` is
+    `newDecimal (±I) (±F·10^(4-|F|))`, i.e. (previous theorem) the mathematically exact value or an error -/
+theorem C12_decimal_parse_canonical (neg : Bool) (I F : List Char) (hI : allDigits I = true) (hF : allDigits F = true)
+    (hIv : (digitsVal I : Int) ≤ maxI64) (hFl : F.length ≤ 4) :
+    parseDecimalL ((if neg then ['-'] else []) ++ (I ++ '.' :: F)) =
+      newDecimal (if neg then -(digitsVal I : Int) else digitsVal I)
+        (if neg then -((digitsVal F * 10 ^ (4 - F.length) : Nat) : Int)
+         else ((digitsVal F * 10 ^ (4 - F.length) : Nat) : Int)) :=
+  parseDecimalL_canon neg I F hI hF hIv hFl
+
+example : parseDecimal "-12.5" = .ok (-125000) := by rfl
+
+/--
+  FULL STATEMENT (false for the code): `parseDecimal s = .ok d ↔ s ∈ L(-?[0-9]+\.[0-9]{1,4}) ∧ val s = d ∧ InI64 d`.
+  The code also accepts a leading `+` (`strconv.ParseInt` does): `C12_decimal_plus_counterexample`.
+  Proved: the accepted strings are EXACTLY sign? digits `.` 1–4 digits with sign ∈ {ε, `-`, `+`} whose exact value (in
+  ten-thousandths) fits in `int64`, and the result is that exact value — i.e. the documented syntax and range plus the
+  one extra sign, nothing else, never a wrapped or truncated value. -/
+theorem C12_decimal_parse_exact_partial (s : String) (d : Int) :
+    parseDecimal s = .ok d ↔ ∃ sg I F, DecimalSyntax s.toList sg I F ∧ d = decimalValue sg I F ∧ InI64 d :=
+  parseDecimalL_ok_iff s.toList d
+
+example : DecimalSyntax "-12.5".toList ['-'] ['1', '2'] ['5'] ∧ decimalValue ['-'] ['1', '2'] ['5'] = -125000 :=
+  ⟨⟨by simp, by decide, by decide, by decide, by decide⟩, by decide⟩
+
+/-- whatever `ParseDecimal` accepts is in range -/
+theorem C12_decimal_parse_in_range (s : String) (d : Int) (h : parseDecimal s = .ok d) : InI64 d :=
+  parseDecimalL_ok_inI64 h
+
+/-- `ParseDecimal("+1.5")` is accepted although `+` is not in the documented syntax -/
+theorem C12_decimal_plus_counterexample : parseDecimal "+1.5" = .ok 15000 := by rfl
+
+/--
+  FULL STATEMENT (false for the code), DESIGN `newDecimal_exact`:
+  `-4 ≤ e ≤ 14 → NewDecimal i e = (if InI64 (i·10^(e+4)) then ok (i·10^(e+4)) else error)` for every `int64` `i`.
+  Proved part: every non-positive exponent, and every positive exponent whose product `i·10^e` fits in `int64`
+  (the sub-domain on which Go's overflow test `intPart < i` is sound). -/
+theorem C12_newDecimal_exact_partial (i e : Int) (hi : InI64 i) (he : -4 ≤ e ∧ e ≤ 14)
+    (hs : e ≤ 0 ∨ InI64 (i * 10 ^ e.toNat)) :
+    newDecimalExp i e =
+      if InI64 (i * 10 ^ (e + 4).toNat) then .ok (i * 10 ^ (e + 4).toNat) else .error .extDecimal := by
+  by_cases h0 : e ≤ 0
+  · exact newDecimalExp_nonpos i hi e ⟨he.1, h0⟩
+  · rcases hs with h | h
+    · exact absurd h h0
+    · exact newDecimalExp_pos i hi e ⟨by omega, he.2⟩ h
+
+example : InI64 15 ∧ newDecimalExp 15 (-1) = .ok 15000 ∧ newDecimalExp (-922337203685478) 0 = .error .extDecimal :=
+  ⟨by decide, by rfl, by rfl⟩
+
+/-- outside that sub-domain the constructor wraps silently: `NewDecimal(184468, 14)` returns 55926290448384.0
+    although 184468·10^14 is far outside the decimal range -/
+theorem C12_newDecimal_counterexample :
+    ∃ i e : Int, InI64 i ∧ -4 ≤ e ∧ e ≤ 14 ∧ ¬ InI64 (i * 10 ^ (e + 4).toNat) ∧
+      newDecimalExp i e = .ok 559262904483840000 :=
+  ⟨184468, 14, by decide, by decide, by decide, by decide, by rfl⟩
+
+/-- exponents outside [-4, 14] are rejected -/
+theorem C12_newDecimal_exponent_range (i e : Int) (he : e < -4 ∨ 14 < e) : newDecimalExp i e = .error .extDecimal := by
+  unfold newDecimalExp
+  rw [if_pos (by simp; omega)]
+
+/-! ## duration -/
+
+/--
+  FULL STATEMENT (false for the code): `InI64 d → parseDuration (printDuration d) = .ok d`.
+  Proved part: every value except MinInt64. -/
+theorem C12_duration_roundtrip_partial (d : Int) (h : InI64 d) (hmin : d ≠ minI64) :
+    parseDuration (printDuration d) = .ok d := by
+  simp only [parseDuration, printDuration, String.toList_ofList]
+  exact parseDurationL_printDurationL d h hmin
+
+example : InI64 (-90061001) ∧ (-90061001 : Int) ≠ minI64 ∧ printDuration (-90061001) = "-1d1h1m1s1ms" :=
+  ⟨by decide, by decide, by rfl⟩
+
+/-- MinInt64 prints as `"-"` (the negation wraps), which does not parse -/
+theorem C12_duration_min_counterexample :
+    ∃ d : Int, InI64 d ∧ printDuration d = "-" ∧ parseDuration (printDuration d) = .error .extDuration :=
+  ⟨minI64, by decide, by rfl, by rfl⟩
+
+/-- … and the in-range literal for MinInt64 is rejected by `ParseDuration` (the magnitude is accumulated as a
+    positive `int64`) -/
+theorem C12_duration_min_literal_counterexample :
+    parseDuration "-9223372036854775808ms" = .error .extDuration ∧ parseDuration "-9223372036854775807ms" = .ok (minI64 + 1) :=
+  ⟨by decide +kernel, by decide +kernel⟩
+
+/--
+  FULL STATEMENT (DESIGN `duration_parse_exact`): accepted ↔ units in order d,h,m,s,ms each at most once, total in range.
+  Proved part: whatever `ParseDuration` accepts has an in-range value — every overflow guard of the loop is sound, so no
+  quantity, product or running total ever wraps (the rejected in-range literal is `C12_duration_min_literal_counterexample`). -/
+theorem C12_duration_parse_exact_partial (s : String) (d : Int) (h : parseDuration s = .ok d) : InI64 d :=
+  parseDurationL_ok_inI64 h
+
+example : parseDuration "1d2h3m4s5ms" = .ok 93784005 := by decide +kernel
+
+/-! ## calendar -/
+
+/-- `civilFromDays` and `daysFromCivil` are mutually inverse on all of ℤ / all valid proleptic-Gregorian dates
+    (all leap days, year boundaries, negative and expanded years) -/
+theorem C12_civil_days_inverse :
+    (∀ (y : Int) (m d : Nat), 1 ≤ m ∧ m ≤ 12 ∧ 1 ≤ d ∧ d ≤ daysInMonth y m → civilFromDays (daysFromCivil y m d) = (y, m, d)) ∧
+    (∀ z : Int, daysFromCivil (civilFromDays z).1 (civilFromDays z).2.1 (civilFromDays z).2.2 = z ∧
+      1 ≤ (civilFromDays z).2.1 ∧ (civilFromDays z).2.1 ≤ 12 ∧ 1 ≤ (civilFromDays z).2.2 ∧
+      (civilFromDays z).2.2 ≤ daysInMonth (civilFromDays z).1 (civilFromDays z).2.1) :=
+  ⟨fun y m d h => civilFromDays_daysFromCivil y m d h,
+   fun z => ⟨daysFromCivil_civilFromDays z, civilFromDays_valid z⟩⟩
+
+example : civilFromDays (daysFromCivil 2024 2 29) = (2024, 2, 29) ∧ daysFromCivil 1970 1 1 = 0 ∧
+    civilFromDays (-106751991168) = (-292275055, 5, 16) := ⟨by rfl, by rfl, by rfl⟩
+
+/-! ## datetime -/
+
+/-- for every `int64` instant, parsing its printed form gives back the instant exactly when it passes the range
+    test `ParseDatetime` applies (with the Go source's `minDatetime`/`maxDatetime` constants), an error otherwise -/
+theorem C12_datetime_print_parse (t : Int) (h : InI64 t) :
+    parseDatetime (printDatetime t) =
+      if t < minDatetimeMs || t > maxDatetimeMs then .error .extDatetime else .ok t := by
+  simp only [parseDatetime, printDatetime, String.toList_ofList]
+  exact parseDatetimeL_printDatetimeL t h
+
+/--
+  FULL STATEMENT (false for the code): `InI64 t → parseDatetime (printDatetime t) = .ok t`.
+  Proved part: every instant from `minDatetime` (the constant in types/datetime.go, one day after MinInt64) on. -/
+theorem C12_datetime_roundtrip_partial (t : Int) (h1 : minDatetimeMs ≤ t) (h2 : t ≤ maxI64) :
+    parseDatetime (printDatetime t) = .ok t := by
+  have hmin := minDatetimeMs_eq
+  have hI : InI64 t := by unfold InI64; unfold minI64 at *; omega
+  rw [C12_datetime_print_parse t hI, maxDatetimeMs_eq]
+  rw [if_neg (by simp; omega)]
+
+example : minDatetimeMs ≤ (0 : Int) ∧ (0 : Int) ≤ maxI64 ∧ printDatetime 0 = "1970-01-01T00:00:00.000Z" ∧
+    printDatetime maxI64 = "+292278994-08-17T07:12:55.807Z" := ⟨by decide, by decide, by rfl, by rfl⟩
+
+/-- the whole first day of the representable range (86 400 000 instants) prints to text that does not parse -/
+theorem C12_datetime_first_day_unparseable (t : Int) (h1 : minI64 ≤ t) (h2 : t < minI64 + 86400000) :
+    parseDatetime (printDatetime t) = .error .extDatetime := by
+  have hI : InI64 t := by unfold InI64; unfold minI64 maxI64 at *; omega
+  rw [C12_datetime_print_parse t hI, minDatetimeMs_eq]
+  rw [if_pos (by simp; omega)]
+
+/-- MinInt64 prints as `-292275055-05-16T16:47:04.192Z`, which `ParseDatetime` rejects: the constant `minDatetime`
+    names 05-17 -/
+theorem C12_datetime_min_counterexample :
+    ∃ t : Int, InI64 t ∧ printDatetime t = "-292275055-05-16T16:47:04.192Z" ∧
+      parseDatetime (printDatetime t) = .error .extDatetime :=
+  ⟨minI64, by decide, by rfl, C12_datetime_first_day_unparseable minI64 (by decide) (by decide)⟩
+
+/-- every canonical date-time literal — four-digit or signed nine-digit year, any valid calendar day, with or without
+    milliseconds, `Z` or ANY offset `±hhmm` (hh ≤ 23, mm ≤ 59) — parses to the mathematically exact instant
+    `days·86400000 + hh·3600000 + mm·60000 + ss·1000 + ms − offset`, or is rejected exactly by the range test -/
+theorem C12_datetime_parse_canonical (expanded : Bool) (y : Int) (m d hh mi ss : Nat) (ml : Option Nat)
+    (tz : Option (Bool × Nat × Nat))
+    (hy : if expanded then y.natAbs ≤ 999999999 else 0 ≤ y ∧ y ≤ 9999)
+    (hv : 1 ≤ m ∧ m ≤ 12 ∧ 1 ≤ d ∧ d ≤ daysInMonth y m)
+    (h1 : hh ≤ 23) (h2 : mi ≤ 59) (h3 : ss ≤ 59) (h4 : ∀ v, ml = some v → v ≤ 999)
+    (h5 : ∀ neg oh om, tz = some (neg, oh, om) → oh ≤ 23 ∧ om ≤ 59) :
+    parseDatetimeL (yearText expanded y ++ ('-' :: (padL 2 m ++ ('-' :: (padL 2 d ++ ('T' ::
+      (padL 2 hh ++ (':' :: (padL 2 mi ++ (':' :: (padL 2 ss ++ (msText ml ++ tzText tz)))))))))))) =
+      (let t := daysFromCivil y m d * 86400000 + (hh : Int) * 3600000 + (mi : Int) * 60000 + (ss : Int) * 1000 +
+          ((ml.getD 0 : Nat) : Int) - tzMillis tz;
+       if t < minDatetimeMs || t > maxDatetimeMs then .error .extDatetime else .ok t) :=
+  parseDatetimeL_canon expanded y m d hh mi ss ml tz hy hv h1 h2 h3 h4 h5
+
+example : yearText false 2024 ++ ('-' :: (padL 2 1 ++ ('-' :: (padL 2 1 ++ ('T' :: (padL 2 12 ++ (':' :: (padL 2 34 ++ (':' :: (padL 2 56 ++ (msText none ++ tzText (some (false, 1, 30))))))))))))) =
+    "2024-01-01T12:34:56+0130".toList ∧
+    parseDatetime "2024-01-01T12:34:56+0130" = .ok 1704107096000 := ⟨by rfl, by decide +kernel⟩
+
+/-- date-only literals give the day's midnight — wrapped to `int64`, because this path has no range test -/
+theorem C12_datetime_parse_dateonly (expanded : Bool) (y : Int) (m d : Nat)
+    (hy : if expanded then y.natAbs ≤ 999999999 else 0 ≤ y ∧ y ≤ 9999)
+    (hv : 1 ≤ m ∧ m ≤ 12 ∧ 1 ≤ d ∧ d ≤ daysInMonth y m) :
+    parseDatetimeL (yearText expanded y ++ ('-' :: (padL 2 m ++ ('-' :: (padL 2 d ++ []))))) =
+      .ok (wrap (daysFromCivil y m d * 86400000)) :=
+  parseDatetimeL_dateonly expanded y m d hy hv
+
+/-- the date-only path has no range check: `+999999999-12-31` is accepted with a wrapped value -/
+theorem C12_datetime_dateonly_counterexample :
+    ¬ InI64 (daysFromCivil 999999999 12 31 * 86400000) ∧
+      parseDatetime "+999999999-12-31" = .ok (wrap (daysFromCivil 999999999 12 31 * 86400000)) :=
+  ⟨by decide, by rfl⟩
+
+/-! ## ip -/
+
+/--
+  FULL STATEMENT (false for the code): `parseIP (printIP n) = .ok n` for every address / prefix value.
+  Proved part: every IPv4 address and every IPv4 prefix (all 2^32 addresses × prefix lengths 0–32), relative to the
+  model's transcription of `netip.ParseAddr` / `ParsePrefix` / `Addr.String` (tied to Go by the ops parse-ip / print-ip).
+  IPv6 is not proved (only checked by correspondence and the Go-side round-trip oracle), and it FAILS for IPv4-mapped
+  addresses: `C12_ip_4in6_counterexample`. -/
+theorem C12_ip_roundtrip_partial (a bits : Nat) (ha : a < 2 ^ 32) (hb : bits ≤ 32) :
+    parseIP (printIP ⟨false, a, bits⟩) = .ok ⟨false, a, bits⟩ := by
+  simp only [parseIP, printIP, String.toList_ofList]
+  exact parseIPL_printIPL_v4 a bits (by omega) hb
+
+example : printIP ⟨false, 167772160, 8⟩ = "10.0.0.0/8" ∧ printIP ⟨false, 2130706433, 32⟩ = "127.0.0.1" := ⟨by rfl, by rfl⟩
+
+/-- an IPv4-mapped IPv6 address (parseable as `::ffff:102:304`) prints in dotted form, which `ParseIPAddr` rejects -/
+theorem C12_ip_4in6_counterexample :
+    parseIP "::ffff:102:304" = .ok ⟨true, 0xffff01020304, 128⟩ ∧
+    printIP ⟨true, 0xffff01020304, 128⟩ = "::ffff:1.2.3.4" ∧
+    parseIP (printIP ⟨true, 0xffff01020304, 128⟩) = .error .extIP :=
+  ⟨by decide +kernel, by rfl, by decide +kernel⟩
 
 end CedarGo
